@@ -65,6 +65,9 @@ func (c *ClusterNode) syncUserCollections() error {
 	for dest, req := range postage {
 		c.logger.Info().Int("count", len(req.KeyValues)).Str("dest", dest).Msg("user collections to send")
 	}
+	if err := verifPoint("records-read", 0); err != nil {
+		return err
+	}
 	// ---------------------------
 	// We need to do this sending business after we have read otherwise we might
 	// lock the database in case another server wants to send to us. There would
